@@ -69,7 +69,7 @@ class C11(Check):
                    'overlong-wait bound: 10 s reply time-out + 3 s queue time-out + 2 s; in runs with connection '
                    'faults additionally 31 s for a reconnect holding the client lock',
                    'not-released bound: loss visible at the client socket + 1 s receive time-out + 2 s']
-    PROBES = ('c11.same-key-concurrent', 'peer.streamed-update', 'c11.timeout', 'c11.late-reply', 'fault.peer-close', 'fault.peer-reset',
+    PROBES = ('c11.same-key-concurrent', 'c11.small-peer-buffer', 'peer.streamed-update', 'c11.timeout', 'c11.late-reply', 'fault.peer-close', 'fault.peer-reset',
               'fault.peer-blackhole', 'c11.user-disconnect', 'c11.disconnect-during-loss', 'c11.reconnect',
               'c11.request-parked')
 
@@ -117,7 +117,7 @@ class C11(Check):
                  # an active node streaming updates: the connection is never idle (no rescue by the heartbeat ping)
                  'stream': rng.choice([None, 0.4, 1.5]),
                  'user_disconnect': round(rng.random() * 6, 3) if rng.random() < (0.5 if faulty else 0.25) else None,
-                 'faulty': faulty}
+                 'faulty': faulty, 'peer_rcvbuf': rng.choice([None, None, 12, 24])}
         if rng.random() < 0.2:
             # focus: a few requests with one and the same key at (nearly) the same instant, immediate replies,
             # nothing afterwards which could hide a parked request that is never transmitted, and an active
@@ -185,6 +185,10 @@ class C11(Check):
         shape = case['shape']
         world = ctx['world'] = env.World(sim, shape['seg_bias'], shape['lat_bias'])
         plan = {'replies': shape['replies'], 'stream': shape.get('stream')}
+        # the device takes only a few bytes at a time: requests longer than that need more than one send call
+        world.net.accept_rcvbuf = shape.get('peer_rcvbuf')
+        if shape.get('peer_rcvbuf'):
+            sim.count('c11.small-peer-buffer')
         pr = ctx['peer'] = simpeer.Peer(world, plan)
         log = ctx['clientlog'] = []
         cl = SecopClient('tcp://simhost:10767', log=ListLogger(log, sim))
